@@ -877,6 +877,7 @@ def attr_of(self, v, attr, st, n):
             if isinstance(v, Num) and v.seg is not None and nv.shape is not None and len(nv.shape) in (1, 2):
                 r.seg = list(v.seg)
                 r.segax = (len(nv.shape) - 1 - v.segax)
+            r.view_of = nv.view_of
             return r
         if attr == 'dtype':
             return Opaque('dtype:' + {True: 'complex', False: 'float', None: '?'}[nv.cplx])
@@ -1211,6 +1212,8 @@ def index_value(self, v, idx, node):
         out.extend(shape[ax:])
         r = nv.copy(shape=tuple(out), taint=t)
         r.ex = None
+        if fancy is None and r.is_array:
+            r.view_of = nv.view_of          # basic slicing returns a view
         if fancy is not None:
             r.org = None if fancy == 'none' else fancy
         elif any(isinstance(ix, SliceV) for ix in idxs):
